@@ -11,6 +11,7 @@ Only *definite* facts produce events: an unknown value (top) never does.  Events
 The analysis never imports or runs the library.
 """
 import ast
+import copy
 
 from .frontend import AnalysisError, norm_text, body_without_docstring
 
@@ -189,6 +190,8 @@ class FuncAnalysis:
             if isinstance(n, ast.Name) and isinstance(n.ctx, ast.Store):
                 assigned.add(n.id)
         self.stable_params = [p for p in params if p not in assigned]
+        if a.vararg and a.vararg.arg not in assigned:
+            self.stable_params.append(a.vararg.arg)
         is_method = self.cls is not None and "<locals>" not in self.qual
         static = any(isinstance(d, ast.Name) and d.id == "staticmethod" for d in self.fn.decorator_list)
         for i, p in enumerate(params):
@@ -203,6 +206,10 @@ class FuncAnalysis:
             env[a.kwarg.arg] = V("paramkw", origin=a.kwarg.arg)
         if actuals:
             for p_, v_ in actuals.items():
+                if p_ == "*":
+                    if a.vararg:          # f(a, b, c) to def f(*values): the element kinds are those of the actual arguments
+                        env[a.vararg.arg] = V("tuple", elems=tuple(v_), origin=a.vararg.arg)
+                    continue
                 env[p_] = v_
             for p_, d_ in zip(params[len(params) - len(a.defaults):], a.defaults):
                 if p_ not in actuals:
@@ -330,6 +337,14 @@ class FuncAnalysis:
                     and not s.body[0].orelse and s.body[0].body and isinstance(s.body[0].body[-1], ast.Raise):
                 seq = self.name_tuple(s.iter)
                 t_ = s.body[0].test
+                if not seq and isinstance(s.iter, ast.Name) and s.iter.id in env and env[s.iter.id].elems is not None \
+                        and isinstance(t_, ast.UnaryOp) and isinstance(t_.op, ast.Not) and isinstance(t_.operand, ast.Call) \
+                        and isinstance(t_.operand.func, ast.Name) and t_.operand.func.id == "isinstance" and len(t_.operand.args) == 2 \
+                        and isinstance(t_.operand.args[0], ast.Name) and t_.operand.args[0].id == s.target.id:
+                    tys = self.type_atoms(t_.operand.args[1])
+                    if tys is not None:      # for v in values: if not isinstance(v, T): raise   (values = the *args of a validator)
+                        cur = env[s.iter.id]
+                        env[s.iter.id] = V(cur.atoms, cur.const, tuple(V(tys, origin=e_.origin) for e_ in cur.elems), cur.origin)
                 if seq and isinstance(t_, ast.UnaryOp) and isinstance(t_.op, ast.Not) and isinstance(t_.operand, ast.Call) \
                         and isinstance(t_.operand.func, ast.Name) and t_.operand.func.id == "isinstance" and len(t_.operand.args) == 2 \
                         and isinstance(t_.operand.args[0], ast.Name) and t_.operand.args[0].id == s.target.id:
@@ -338,6 +353,27 @@ class FuncAnalysis:
                         for nm in seq:
                             cur = env.get(nm)
                             env[nm] = V(tys, origin=(cur.origin if cur else None))
+            # table-driven validation: `for value, kind in ((a, Angle), (b, float)): if not isinstance(value, kind): raise`
+            if isinstance(s, ast.For) and isinstance(s.target, ast.Tuple) and len(s.target.elts) == 2 and all(isinstance(e_, ast.Name) for e_ in s.target.elts) \
+                    and len(s.body) == 1 and isinstance(s.body[0], ast.If) and not s.body[0].orelse and s.body[0].body \
+                    and isinstance(s.body[0].body[-1], ast.Raise):
+                t_ = s.body[0].test
+                it_ = s.iter
+                if isinstance(it_, ast.Name):
+                    binds = [n for n in ast.walk(self.fn) if isinstance(n, ast.Assign) and len(n.targets) == 1
+                             and isinstance(n.targets[0], ast.Name) and n.targets[0].id == it_.id]
+                    it_ = binds[0].value if len(binds) == 1 else None
+                if isinstance(it_, (ast.Tuple, ast.List)) and it_.elts and all(isinstance(e_, (ast.Tuple, ast.List)) and len(e_.elts) == 2
+                                                                              and isinstance(e_.elts[0], ast.Name) for e_ in it_.elts) \
+                        and isinstance(t_, ast.UnaryOp) and isinstance(t_.op, ast.Not) and isinstance(t_.operand, ast.Call) \
+                        and isinstance(t_.operand.func, ast.Name) and t_.operand.func.id == "isinstance" and len(t_.operand.args) == 2 \
+                        and all(isinstance(x_, ast.Name) for x_ in t_.operand.args) \
+                        and [x_.id for x_ in t_.operand.args] == [e_.id for e_ in s.target.elts]:
+                    for e_ in it_.elts:
+                        tys = self.type_atoms(e_.elts[1])
+                        if tys is not None:
+                            cur = env.get(e_.elts[0].id)
+                            env[e_.elts[0].id] = V(tys, origin=(cur.origin if cur else None))
         elif isinstance(s, ast.Expr):
             v = s.value
             if isinstance(v, ast.Call) and isinstance(v.func, ast.Attribute) and isinstance(v.func.value, ast.Name):
@@ -445,6 +481,30 @@ class FuncAnalysis:
     def refine(self, test, env, truth):
         if isinstance(test, ast.UnaryOp) and isinstance(test.op, ast.Not):
             return self.refine(test.operand, env, not truth)
+        if isinstance(test, ast.Call) and isinstance(test.func, ast.Name) and not test.keywords \
+                and not any(isinstance(a_, ast.Starred) for a_ in test.args) and getattr(self, "_pred_depth", 0) < 3:
+            # predicate helper introduced by a refactoring: `def _all_angles(*values): return all(isinstance(v, Angle) for v in values)`
+            # - its returned expression is read with the actual arguments in place of the parameters
+            hf = self.an.new_private_helper("%s.%s" % (self.mod, test.func.id))
+            if hf is not None:
+                body = body_without_docstring(hf)
+                if len(body) == 1 and isinstance(body[0], ast.Return) and body[0].value is not None and not hf.args.kwonlyargs and hf.args.kwarg is None:
+                    names = [a_.arg for a_ in hf.args.posonlyargs + hf.args.args]
+                    if len(test.args) >= len(names) and (hf.args.vararg is not None or len(test.args) == len(names)):
+                        mp = dict(zip(names, test.args))
+                        if hf.args.vararg is not None:
+                            mp[hf.args.vararg.arg] = ast.Tuple(elts=list(test.args[len(names):]), ctx=ast.Load())
+
+                        class Sub(ast.NodeTransformer):
+                            def visit_Name(self_, n_):
+                                return copy.deepcopy(mp[n_.id]) if (isinstance(n_.ctx, ast.Load) and n_.id in mp) else n_
+                        new = Sub().visit(copy.deepcopy(body[0].value))
+                        ast.fix_missing_locations(ast.copy_location(new, test))
+                        self._pred_depth = getattr(self, "_pred_depth", 0) + 1
+                        try:
+                            return self.refine(new, env, truth)
+                        finally:
+                            self._pred_depth -= 1
         if isinstance(test, ast.BoolOp):
             if (isinstance(test.op, ast.And) and truth) or (isinstance(test.op, ast.Or) and not truth):
                 for v in test.values:
@@ -490,11 +550,45 @@ class FuncAnalysis:
                 env[k] = V(cur.atoms, cur.const, None, cur.origin, ns)
             return
         if isinstance(test, ast.Call) and isinstance(test.func, ast.Name) and test.func.id == "all" and len(test.args) == 1 \
+                and isinstance(test.args[0], (ast.GeneratorExp, ast.ListComp)) and len(test.args[0].generators) == 2 and truth:
+            # all(isinstance(v, T) for row in ((a, b), (c, d)) for v in row): every name of the nested literal is typed
+            g0, g1 = test.args[0].generators
+            elt = test.args[0].elt
+            rows = g0.iter
+            if isinstance(rows, ast.Name):
+                binds = [n for n in ast.walk(self.fn) if isinstance(n, ast.Assign) and len(n.targets) == 1
+                         and isinstance(n.targets[0], ast.Name) and n.targets[0].id == rows.id]
+                rows = binds[0].value if len(binds) == 1 else None
+            if isinstance(rows, (ast.Tuple, ast.List)) and rows.elts and all(isinstance(r_, (ast.Tuple, ast.List)) and r_.elts
+                                                                            and all(isinstance(e_, ast.Name) for e_ in r_.elts) for r_ in rows.elts) \
+                    and not g0.ifs and not g1.ifs and isinstance(g0.target, ast.Name) and isinstance(g1.target, ast.Name) \
+                    and isinstance(g1.iter, ast.Name) and g1.iter.id == g0.target.id and isinstance(elt, ast.Call) \
+                    and isinstance(elt.func, ast.Name) and elt.func.id == "isinstance" and len(elt.args) == 2 \
+                    and isinstance(elt.args[0], ast.Name) and elt.args[0].id == g1.target.id:
+                tys = self.type_atoms(elt.args[1])
+                if tys is not None:
+                    for r_ in rows.elts:
+                        for e_ in r_.elts:
+                            cur = env.get(e_.id)
+                            env[e_.id] = V(tys, origin=(cur.origin if cur else None))
+                    if isinstance(g0.iter, ast.Name) and g0.iter.id in env:
+                        cur = env[g0.iter.id]
+                        env[g0.iter.id] = V(cur.atoms, cur.const, tuple(V("tuple", elems=tuple(env[e_.id] for e_ in r_.elts)) for r_ in rows.elts), cur.origin)
+            return
+        if isinstance(test, ast.Call) and isinstance(test.func, ast.Name) and test.func.id == "all" and len(test.args) == 1 \
                 and isinstance(test.args[0], (ast.GeneratorExp, ast.ListComp)) and len(test.args[0].generators) == 1 and truth:
             # all(isinstance(x, T) for x in (a, b, c))  - also through a local name bound once to such a tuple
             g = test.args[0].generators[0]
             elt = test.args[0].elt
             seq = self.name_tuple(g.iter)
+            if not seq and isinstance(g.iter, ast.Name) and g.iter.id in env and env[g.iter.id].elems is not None and not g.ifs \
+                    and isinstance(g.target, ast.Name) and isinstance(elt, ast.Call) and isinstance(elt.func, ast.Name) \
+                    and elt.func.id == "isinstance" and len(elt.args) == 2 and isinstance(elt.args[0], ast.Name) and elt.args[0].id == g.target.id:
+                tys = self.type_atoms(elt.args[1])
+                if tys is not None:
+                    cur = env[g.iter.id]
+                    env[g.iter.id] = V(cur.atoms, cur.const, tuple(V(tys, origin=e_.origin) for e_ in cur.elems), cur.origin)
+                return
             if seq and not g.ifs and isinstance(g.target, ast.Name) and isinstance(elt, ast.Call) and isinstance(elt.func, ast.Name) \
                     and elt.func.id == "isinstance" and len(elt.args) == 2 and isinstance(elt.args[0], ast.Name) and elt.args[0].id == g.target.id:
                 tys = self.type_atoms(elt.args[1])
@@ -1014,10 +1108,16 @@ class FuncAnalysis:
             if sub.cls is not None and not static and names and names[0] == "self":
                 vals = [V("obj:%s.%s" % (mod, sub.cls))] + vals
             acts = dict(zip(names, vals))
+            starred = any(isinstance(a_, ast.Starred) for a_ in node.args)
+            if hf.args.vararg is not None and not starred and len(vals) >= len(names):
+                acts["*"] = list(vals[len(names):])
             if any(isinstance(a_, ast.Starred) for a_ in node.args) or node.keywords:
                 # positions are not known statically (f(*seq) / keywords): parameters without a definite actual are unknown, not
                 # "unvalidated caller input"
+                extra_ = acts.get("*")
                 acts = {n_: (acts[n_] if (n_ in acts and not acts[n_].has("param", "paramseq")) else TOP) for n_ in names}
+                if extra_ is not None and not starred:
+                    acts["*"] = extra_
                 for k_ in node.keywords:
                     if k_.arg in names:
                         acts[k_.arg] = self.ev(k_.value, self._env if self._env is not None else {})
@@ -1030,6 +1130,14 @@ class FuncAnalysis:
                         v_ = sub.param_at_exit.get(names[i + off])
                         if v_ is not None and not v_.has("param", "top", "undef"):
                             self._env[a_.id] = V(v_.atoms, origin=a_.id)
+                if hf.args.vararg is not None and not starred:
+                    vx = sub.param_at_exit.get(hf.args.vararg.arg)
+                    nfix = len(names) - off
+                    if vx is not None and vx.elems is not None:
+                        for j, a_ in enumerate(node.args[nfix:]):
+                            if j < len(vx.elems) and isinstance(a_, ast.Name) and a_.id in self._env and self._env[a_.id].has("param") \
+                                    and not vx.elems[j].has("param", "top", "undef"):
+                                self._env[a_.id] = V(vx.elems[j].atoms, origin=a_.id)
             return rv
         val = self.an.validators.get(tgt)
         if val and self._env is not None:
